@@ -13,6 +13,15 @@
   into (`false`); `Untouched t p` — `p` is not a path of the incoming tree (not a prefix of a
   visited path) and does not lie at or below a written path.
 
+  The trace is ghost output of the model; section "the trace is determined by the incoming tree" ties it to
+  the incoming mapping: `MergeRun` / `DefaultsRun` (Props/Lemmas/C10_Trace.lean) are big-step SPECIFICATIONS
+  of the two loops written without the model (key formatted against the context as merged so far; descend
+  iff mapping into mapping; otherwise the value of the type table `Written` / the formatted default when
+  missing / nothing); every run of the model satisfies them with the trace it returned
+  (`trace_sound_complete`), they determine content and named paths (`trace_determined`), and the frame is
+  restated over the incoming keys (`merge_frame_named`) and over the specification's named paths
+  (`merge_frame_named_paths`) without mentioning the returned trace.
+
   Tree level (objects are trees): the incoming mapping is an immutable value there, so "the incoming
   mapping is left unmodified" cannot even be stated. It is stated and proved at HEAP level (last
   section, `MergeHeap` of `PypyrModel/Merge.lean`: context, incoming mappings and everything they hold
@@ -26,7 +35,9 @@
 -/
 import PypyrModel.Merge
 import Props.Lemmas.C10_Merge
+import Props.Lemmas.C10_Trace
 import Props.Lemmas.C10_Heap
+import Props.Lemmas.C10_Table
 import Props.C09
 
 namespace Pypyr.C10
@@ -86,13 +97,8 @@ section table
 variable (fmt : Fmt) (recur : (Pairs → Pairs) → Pairs → Pairs → Except Exc (Pairs × Trace))
   (rebuild : Pairs → Pairs) (cur : Pairs) (k v fk fv : Val)
 
-/-- Both "same mergeable kind" tests of the code fail for this pair. -/
-def mergeable : Val → Val → Bool
-  | .dict _, .dict _ => true
-  | .list _, .list _ => true
-  | .tuple _, .tuple _ => true
-  | .set _, .set _ => true
-  | _, _ => false
+-- `mergeable old v` ("one of the same-mergeable-kind tests of the code succeeds for this pair") is defined in
+-- Props/Lemmas/C10_Trace.lean
 
 /-- Incoming string or special tag: overwrite with the formatted value, whatever is there. -/
 theorem merge_table_str (hv : isStrLike v = true) (hk : fmt (ctxOf (rebuild cur)) k = .ok fk)
@@ -233,6 +239,259 @@ theorem defaultsRec_spec (fmt : Fmt) (fuel : Nat) (rebuild : Pairs → Pairs) (c
   ⟨(defaultsRec_ok fmt fuel rebuild cur add cur' t h).keeps,
    (defaultsRec_ok fmt fuel rebuild cur add cur' t h).adds,
    defaultsRec_frame fmt fuel rebuild cur add cur' t h⟩
+
+/-- the context and the incoming mapping of the docstrings of `pypyr.steps.contextmerge` / `default` -/
+def docCtx : Pairs :=
+  [(.str "key1", .str "value1"), (.str "key2", .str "value2"),
+   (.str "key3", .dict [(.str "k31", .str "value31"), (.str "k32", .str "value32")]),
+   (.str "none", .none)]
+
+def docAdd : Val :=
+  .dict [(.str "key2", .str "aaa_{key1}_zzz"), (.str "key3", .dict [(.str "k33", .str "value33")]),
+         (.str "key4", .str "bbb_{key2}_yyy"), (.str "none", .str "x")]
+
+/-! ## The trace is determined by the incoming tree
+
+  `MergeRun fmt rebuild cur add cur' hs t` (Props/Lemmas/C10_Trace.lean) is a specification of the loop of
+  `merge_recurse` that does not mention the model: going through the incoming items `add` in order, the
+  key is formatted against the context as merged so far (`ctxOf (rebuild cur_i)`) to a hashable `fk_i`;
+  if `current[fk_i]` and the incoming value are both mappings the item DESCENDS (named paths
+  `([fk_i], false)` followed by `under fk_i t_i`, `t_i` the named paths of the nested run), otherwise it is
+  WRITTEN (`([fk_i], true)`) with the value the type table `Written` prescribes. `hs` is the list of
+  `(fk_i, what was done)`, one per incoming item, in order. `DefaultsRun` likewise, with a third case:
+  the key exists (not mapping × mapping) — left alone, NO entry. -/
+
+/-- **`trace_sound_complete`** (merge). A run of the model that returns satisfies the specification with
+    the very trace it returned: there are formatted keys `hs`, exactly one per incoming item and in order
+    (`hs.length = add.length`), each the result of formatting that item's key against the context as
+    merged so far (inside `MergeRun`), no item is left alone, and the depth-1 entries of the trace are
+    EXACTLY `[fk_i]`, in that order, flagged `false` exactly for the mapping × mapping descents; the
+    nested entries are `under fk_i t_i` with `t_i` the trace of the nested run (inside `MergeRun`). -/
+theorem trace_sound_complete (fmt : Fmt) (fuel : Nat) (rebuild : Pairs → Pairs) (cur add cur' : Pairs) (t : Trace)
+    (h : mergeRec fmt (fuel + 1) rebuild cur add = .ok (cur', t)) :
+    ∃ hs : Heads, MergeRun fmt rebuild cur add cur' hs t ∧ hs.length = add.length ∧
+      (∀ hd ∈ hs, hd.2 ≠ Did.kept) ∧
+      depth1 t = hs.map (fun hd => ([hd.1], hd.2 == Did.wrote)) := by
+  obtain ⟨hs, hrun⟩ := mergeRec_run fmt (fuel + 1) rebuild cur add cur' t h
+  exact ⟨hs, hrun, hrun.length, hrun.no_kept,
+    by rw [hrun.heads_eq, filterMap_headEntry_no_kept hs hrun.no_kept]⟩
+
+/-- **`trace_sound_complete`** (set_defaults): one head per incoming item, in order; an existing key whose
+    pair is not mapping × mapping is `kept` and contributes NO trace entry; the depth-1 entries of the
+    trace are exactly the other heads, in order (`true`: the key was missing and has been added). -/
+theorem trace_sound_complete_defaults (fmt : Fmt) (fuel : Nat) (rebuild : Pairs → Pairs) (cur add cur' : Pairs)
+    (t : Trace) (h : defaultsRec fmt (fuel + 1) rebuild cur add = .ok (cur', t)) :
+    ∃ hs : Heads, DefaultsRun fmt rebuild cur add cur' hs t ∧ hs.length = add.length ∧
+      depth1 t = hs.filterMap headEntry := by
+  obtain ⟨hs, hrun⟩ := defaultsRec_run fmt (fuel + 1) rebuild cur add cur' t h
+  exact ⟨hs, hrun, hrun.length, hrun.heads_eq⟩
+
+/-- **`trace_determined`**: the specification is a FUNCTION of (formatter, place, existing content,
+    incoming tree) — whatever content `c2` and named paths `np` satisfy it are the content and the trace the
+    model returned. So `Untouched t p` is a statement about the incoming tree. -/
+theorem trace_determined (fmt : Fmt) (fuel : Nat) (rebuild : Pairs → Pairs) (cur add cur' : Pairs) (t : Trace)
+    (h : mergeRec fmt fuel rebuild cur add = .ok (cur', t))
+    (hs : Heads) (c2 : Pairs) (np : Trace) (hspec : MergeRun fmt rebuild cur add c2 hs np) :
+    c2 = cur' ∧ np = t := by
+  obtain ⟨hs', hrun⟩ := mergeRec_run fmt fuel rebuild cur add cur' t h
+  exact hspec.deterministic hrun
+
+theorem trace_determined_defaults (fmt : Fmt) (fuel : Nat) (rebuild : Pairs → Pairs) (cur add cur' : Pairs)
+    (t : Trace) (h : defaultsRec fmt fuel rebuild cur add = .ok (cur', t))
+    (hs : Heads) (c2 : Pairs) (np : Trace) (hspec : DefaultsRun fmt rebuild cur add c2 hs np) :
+    c2 = cur' ∧ np = t := by
+  obtain ⟨hs', hrun⟩ := defaultsRec_run fmt fuel rebuild cur add cur' t h
+  exact hspec.deterministic hrun
+
+/-- The converse of `trace_sound_complete`: whatever satisfies the specification is returned by the
+    model as soon as the fuel exceeds the nesting depth of the incoming tree. -/
+theorem spec_is_returned (fmt : Fmt) (rebuild : Pairs → Pairs) (cur add cur' : Pairs) (hs : Heads) (t : Trace)
+    (hspec : MergeRun fmt rebuild cur add cur' hs t) (fuel : Nat) (hf : depthP add < fuel) :
+    mergeRec fmt fuel rebuild cur add = .ok (cur', t) :=
+  hspec.complete fuel hf
+
+theorem spec_is_returned_defaults (fmt : Fmt) (rebuild : Pairs → Pairs) (cur add cur' : Pairs) (hs : Heads)
+    (t : Trace) (hspec : DefaultsRun fmt rebuild cur add cur' hs t) (fuel : Nat) (hf : depthP add < fuel) :
+    defaultsRec fmt fuel rebuild cur add = .ok (cur', t) :=
+  hspec.complete fuel hf
+
+/-- **`merge_frame_named`, general form**: the frame stated over the INCOMING KEYS. If `mergeRec` returns,
+    there are the formatted keys `hs` of the incoming items (`MergeRun`: the i-th is
+    `fmt (ctxOf (rebuild cur_i)) k_i`), and every key `k` that no incoming key formats to has the value it
+    had — no trace in the hypothesis. -/
+theorem mergeRec_frame_named (fmt : Fmt) (fuel : Nat) (rebuild : Pairs → Pairs) (cur add cur' : Pairs) (t : Trace)
+    (h : mergeRec fmt fuel rebuild cur add = .ok (cur', t)) :
+    ∃ hs : Heads, MergeRun fmt rebuild cur add cur' hs t ∧ hs.length = add.length ∧
+      ∀ k, (∀ hd ∈ hs, hd.1 ≠ k) → dictGet? cur' k = dictGet? cur k := by
+  obtain ⟨hs, hrun⟩ := mergeRec_run fmt fuel rebuild cur add cur' t h
+  exact ⟨hs, hrun, hrun.length, fun k hk => hrun.frame_key k hk⟩
+
+/-- **`merge_frame_named`** for `Context.merge`. -/
+theorem merge_frame_named (fuel : Nat) (root : Pairs) (add : Val) (root' : Pairs) (t : Trace)
+    (h : merge fuel root add = .ok (root', t)) :
+    ∃ (kvs : Pairs) (hs : Heads), add = .dict kvs ∧ MergeRun (fmtVal fuel) id root kvs root' hs t ∧
+      hs.length = kvs.length ∧
+      ∀ k, (∀ hd ∈ hs, hd.1 ≠ k) → dictGet? root' k = dictGet? root k := by
+  unfold merge mergeWith at h
+  split at h
+  · rename_i kvs
+    obtain ⟨hs, hrun, hlen, hfr⟩ := mergeRec_frame_named _ fuel id root kvs root' t h
+    exact ⟨kvs, hs, rfl, hrun, hlen, hfr⟩
+  · cases h
+
+/-- **`merge_frame_named_paths`**: the nested form. `np` are the named paths of the SPECIFICATION
+    (computed from the incoming tree and the formatter's answers; by `trace_determined` they are the
+    trace): a path of the old content that is not a prefix of a named path and not at or below a written
+    one has the value it had. Proved from the specification alone (`MergeRun.frame`). -/
+theorem merge_frame_named_paths (fmt : Fmt) (rebuild : Pairs → Pairs) (cur add cur' : Pairs) (hs : Heads)
+    (np : Trace) (hspec : MergeRun fmt rebuild cur add cur' hs np) :
+    ∀ p, p ≠ [] → Untouched np p → getPath cur' p = getPath cur p :=
+  hspec.frame
+
+/-- the same for `set_defaults`; in addition a key the defaults name but that exists (`kept`) keeps its
+    value -/
+theorem defaults_frame_named (fmt : Fmt) (fuel : Nat) (rebuild : Pairs → Pairs) (cur add cur' : Pairs) (t : Trace)
+    (h : defaultsRec fmt fuel rebuild cur add = .ok (cur', t)) :
+    ∃ hs : Heads, DefaultsRun fmt rebuild cur add cur' hs t ∧ hs.length = add.length ∧
+      (∀ k, (∀ hd ∈ hs, hd.1 = k → hd.2 = Did.kept) → dictGet? cur' k = dictGet? cur k) ∧
+      (∀ p, p ≠ [] → Untouched t p → getPath cur' p = getPath cur p) := by
+  obtain ⟨hs, hrun⟩ := defaultsRec_run fmt fuel rebuild cur add cur' t h
+  exact ⟨hs, hrun, hrun.length, fun k hk => hrun.frame_key k hk, hrun.frame⟩
+
+/-- **Per incoming item** (`pre` the items before it, `post` those after): the context as merged so far is
+    the result `cur_i` of the run over `pre`; the item's key formats against it to a hashable `fk`; the item
+    contributes its entries `t_i` to the trace right after those of `pre`; and the head entry is flagged
+    `false` — followed by the nested entries `under fk ts`, `ts` the trace of the nested run on the two
+    mappings — EXACTLY when destination and incoming value are both mappings (`descends`), otherwise it is
+    the single entry `([fk], true)` and `current[fk]` is the table value. -/
+theorem merge_item_named (fmt : Fmt) (n : Nat) (rebuild : Pairs → Pairs) (cur pre post cur' : Pairs)
+    (k v : Val) (t : Trace)
+    (h : mergeRec fmt (n + 1) rebuild cur (pre ++ (k, v) :: post) = .ok (cur', t)) :
+    ∃ cur_i t_pre fk cur_j t_i t_post, mergeRec fmt (n + 1) rebuild cur pre = .ok (cur_i, t_pre) ∧
+      fmt (ctxOf (rebuild cur_i)) k = .ok fk ∧ hashable fk = true ∧
+      mergeRec fmt (n + 1) rebuild cur_j post = .ok (cur', t_post) ∧ t = t_pre ++ (t_i ++ t_post) ∧
+      ((descends cur_i fk v = false ∧ t_i = [([fk], true)] ∧
+          ∃ x, Written fmt (ctxOf (rebuild cur_i)) (dictGet? cur_i fk) v x ∧ cur_j = dictSet cur_i fk x) ∨
+       (descends cur_i fk v = true ∧ ∃ csub sub csub' ts, v = .dict sub ∧
+          dictGet? cur_i fk = some (.dict csub) ∧
+          mergeRec fmt n (fun s => rebuild (dictSet cur_i fk (.dict s))) csub sub = .ok (csub', ts) ∧
+          cur_j = dictSet cur_i fk (.dict csub') ∧ t_i = ([fk], false) :: under fk ts)) := by
+  simp only [mergeRec] at h ⊢
+  obtain ⟨cur_i, t_pre, t2, hpre, hrest, rfl⟩ := foldItems_append pre cur _ cur' t h
+  obtain ⟨cur_j, t_i, t_post, hitem, hpost, rfl⟩ := foldItems_cons hrest
+  obtain ⟨fk, hk, hh, hcase⟩ := mergeItem_spec hitem
+  refine ⟨cur_i, t_pre, fk, cur_j, t_i, t_post, hpre, hk, hh, hpost, rfl, ?_⟩
+  rcases hcase with hw | ⟨csub, sub, csub', ts, rfl, hold, hrec, rfl, rfl⟩
+  · exact Or.inl hw
+  · exact Or.inr ⟨descends_of_both hold, csub, sub, csub', ts, rfl, hold, hrec, rfl, rfl⟩
+
+/-- **`merge_visits_every_item`**: every incoming item ends as a write or a descent — the trace has exactly
+    one depth-1 entry per incoming item. -/
+theorem merge_visits_every_item (fmt : Fmt) (fuel : Nat) (rebuild : Pairs → Pairs) (cur add cur' : Pairs)
+    (t : Trace) (h : mergeRec fmt (fuel + 1) rebuild cur add = .ok (cur', t)) :
+    (depth1 t).length = add.length := by
+  obtain ⟨hs, _, hlen, _, hd⟩ := trace_sound_complete fmt fuel rebuild cur add cur' t h
+  rw [hd, List.length_map, hlen]
+
+/-- the docstring example: the heads are the four incoming keys, `key3` descended, the others written -/
+example : (match merge 8 docCtx docAdd with
+    | .ok (_, t) => depth1 t == [([.str "key2"], true), ([.str "key3"], false), ([.str "key4"], true),
+                                 ([.str "none"], true)]
+    | .error _ => false) = true := by decide +kernel
+
+/-! ## Defaults: every missing key IS added -/
+
+/-- **`defaults_complete`**. Take any incoming item `(k, v)` of the defaults (`pre` the items before it,
+    `post` those after). The context as merged so far is the result `cur_i` of the run over `pre`; the key
+    formats against it to a hashable `fk`; and IF `fk` IS MISSING at that moment, then the default is
+    formatted against the same context to `fv`, the trace has the entry `([fk], true)` at that position,
+    right after the item `current[fk]` is `fv`, and at the end it still is `fv` — unless `fv` is a mapping,
+    which may have gained keys from a later incoming mapping that formats to the same key (`Keeps`).
+    Together with `defaults_never_overwrites` and `defaults_adds_exactly_missing`: exactly the missing
+    ones are added. -/
+theorem defaults_complete (fmt : Fmt) (n : Nat) (rebuild : Pairs → Pairs) (cur pre post cur' : Pairs)
+    (k v : Val) (t : Trace)
+    (h : defaultsRec fmt (n + 1) rebuild cur (pre ++ (k, v) :: post) = .ok (cur', t)) :
+    ∃ cur_i t_pre fk, defaultsRec fmt (n + 1) rebuild cur pre = .ok (cur_i, t_pre) ∧
+      fmt (ctxOf (rebuild cur_i)) k = .ok fk ∧ hashable fk = true ∧
+      (dictGet? cur_i fk = none →
+        ∃ fv t_post, fmt (ctxOf (rebuild cur_i)) v = .ok fv ∧
+          defaultsRec fmt (n + 1) rebuild (dictSet cur_i fk fv) post = .ok (cur', t_post) ∧
+          t = t_pre ++ ([fk], true) :: t_post ∧
+          dictGet? (dictSet cur_i fk fv) fk = some fv ∧
+          ∃ x', dictGet? cur' fk = some x' ∧ (isDict fv = false → x' = fv) ∧
+            (isDict fv = true → isDict x' = true)) := by
+  simp only [defaultsRec] at h ⊢
+  obtain ⟨cur_i, t_pre, t2, hpre, hrest, rfl⟩ := foldItems_append pre cur _ cur' t h
+  obtain ⟨cur_j, t_i, t_post, hitem, hpost, rfl⟩ := foldItems_cons hrest
+  obtain ⟨fk, hk, hh, hcase⟩ := defaultsItem_spec hitem
+  refine ⟨cur_i, t_pre, fk, hpre, hk, hh, ?_⟩
+  intro hmiss
+  rcases hcase with ⟨old, hold, _⟩ | ⟨_, fv, hf, rfl, rfl⟩ | ⟨csub, _, _, _, _, hold, _⟩
+  · rw [hmiss] at hold; cases hold
+  · refine ⟨fv, t_post, hf, hpost, rfl, dictGet?_dictSet_eq _ _ _, ?_⟩
+    have hk' := (defaultsRec_ok fmt (n + 1) rebuild _ post cur' t_post (by simp only [defaultsRec]; exact hpost)).keeps
+    have := hk' [fk] fv (by simp) (by simp [getPath_cons, dictGet?_dictSet_eq, getIn])
+    obtain ⟨x', hx', h1, h2⟩ := this
+    refine ⟨x', ?_, h1, h2⟩
+    simp only [getPath_cons] at hx'
+    cases hg : dictGet? cur' fk with
+    | none => rw [hg] at hx'; cases hx'
+    | some y => rw [hg] at hx'; simp only [getIn] at hx'; exact hx'
+  · rw [hmiss] at hold; cases hold
+
+/-- `defaults_complete` for `Context.set_defaults` on the docstring example: `key4` is missing when its
+    item is reached and ends with the default formatted THEN (`key2` still `value2`). -/
+example : (match defaultsRec (fmtVal 8) 8 id docCtx
+      [(.str "key2", .str "aaa_{key1}_zzz"), (.str "key3", .dict [(.str "k33", .str "value33")])] with
+    | .ok (cur_i, _) => dictGet? cur_i (.str "key4") == none &&
+        (match fmtVal 8 (ctxOf cur_i) (.str "bbb_{key2}_yyy") with
+         | .ok v => v == .str "bbb_value2_yyy"
+         | .error _ => false)
+    | .error _ => false) = true := by decide +kernel
+
+/-! ## Enough fuel ⇒ no OutOfFuel -/
+
+/-- **`merge_enough_fuel`**: `mergeRec … 0` is OutOfFuel and every mapping × mapping descent uses one unit,
+    so what is needed is `fuel > depthP add` (`depthP`: nesting depth of the mapping VALUES of the incoming
+    items; a flat mapping has depth 0 and needs fuel 1). The recursion descends only when the destination
+    holds a mapping too, so the incoming tree alone bounds it. Hypothesis on the formatter: it never
+    answers OutOfFuel itself (with the real `fmtVal fuel` a self-referential expression can: the divergence
+    class, RecursionError in the implementation). -/
+theorem merge_enough_fuel (fmt : Fmt) (hfmt : ∀ c v, fmt c v ≠ .error outOfFuel)
+    (fuel : Nat) (root : Pairs) (add : Val) (hf : depthV add ≤ fuel) (hd : isDict add = true) :
+    mergeWith fmt fuel root add ≠ .error outOfFuel := by
+  cases add <;> simp [isDict] at hd
+  rename_i kvs
+  simp only [mergeWith]
+  exact mergeRec_enough_fuel fmt hfmt fuel id root kvs (by simp only [depthV] at hf; omega)
+
+theorem setDefaults_enough_fuel (fmt : Fmt) (hfmt : ∀ c v, fmt c v ≠ .error outOfFuel)
+    (fuel : Nat) (root : Pairs) (add : Val) (hf : depthV add ≤ fuel) (hd : isDict add = true) :
+    setDefaultsWith fmt fuel root add ≠ .error outOfFuel := by
+  cases add <;> simp [isDict] at hd
+  rename_i kvs
+  simp only [setDefaultsWith]
+  exact defaultsRec_enough_fuel fmt hfmt fuel id root kvs (by simp only [depthV] at hf; omega)
+
+/-- the general forms, anywhere in the context -/
+theorem mergeRec_enough_fuel' (fmt : Fmt) (hfmt : ∀ c v, fmt c v ≠ .error outOfFuel)
+    (fuel : Nat) (rebuild : Pairs → Pairs) (cur add : Pairs) (hf : depthP add < fuel) :
+    mergeRec fmt fuel rebuild cur add ≠ .error outOfFuel :=
+  mergeRec_enough_fuel fmt hfmt fuel rebuild cur add hf
+
+theorem defaultsRec_enough_fuel' (fmt : Fmt) (hfmt : ∀ c v, fmt c v ≠ .error outOfFuel)
+    (fuel : Nat) (rebuild : Pairs → Pairs) (cur add : Pairs) (hf : depthP add < fuel) :
+    defaultsRec fmt fuel rebuild cur add ≠ .error outOfFuel :=
+  defaultsRec_enough_fuel fmt hfmt fuel rebuild cur add hf
+
+/-- the bound is tight: the docstring incoming mapping has depth 2 as a value (one nested mapping), fuel 2
+    suffices, fuel 1 does not (`key3` descends) -/
+example : depthV docAdd = 2 := by decide +kernel
+example : (match mergeWith (fun _ v => .ok v) 2 docCtx docAdd with | .ok _ => true | .error _ => false) = true := by
+  decide +kernel
+example : (match mergeWith (fun _ v => .ok v) 1 docCtx docAdd with
+    | .error e => e.name == "OutOfFuel" | .ok _ => false) = true := by decide +kernel
 
 /-! ## The steps -/
 
@@ -447,6 +706,126 @@ theorem incoming_deep_equal (fuel : Nat) (root : Ref) (h0 h' : Heap) (ops : List
   readVal_of_frozen
     (incoming_unmodified fuel root h0 h' ops S0 A hplain hroot hclosed hatoms hsic hA hsep hrun) hAcl
 
+/-! ### the merge table on objects with their classes (`are_all_this_type` is `isinstance`)
+
+  `Mapping`, `list`, `tuple` and `collections.abc.Set` tests accept subclasses and mixed classes:
+  frozenset | set, set | frozenset, a tuple subclass + a tuple, CommentedSeq.extend(list), OrderedDict into
+  dict … Cells carry a class tag (0 = builtin; set tag 1 = frozenset; other numbers = subclasses).
+  `AtKey …` (Props/Lemmas/C10_Table.lean): the incoming item's key formats to `fk` and `current[fk]`
+  exists and is the object `old`. The statements hold for ALL class tags of both operands. -/
+
+/-- **`mergeH_table_dict`**: mapping × mapping of any two mapping classes → `merge_recurse` into the
+    existing dict OBJECT (which therefore keeps its class). -/
+theorem mergeH_table_dict {fuel : Nat} {recur : Ref → Ref → Heap → Except Exc Heap} {root cur k v : Ref}
+    {h h1 : Heap} {fk old : Ref} {fkv : Val} {tc : Nat} {kvs : List (Ref × Ref)}
+    (a : AtKey fuel root cur k h fk h1 fkv tc kvs old) {tv to : Nat} {vs os : List (Ref × Ref)}
+    (hv : h1[v]? = some (.dict tv vs)) (ho : h1[old]? = some (.dict to os)) :
+    mergeItemH fuel recur root cur k v h = recur old v h1 :=
+  C10H.mergeH_table_dict a hv ho
+
+/-- **`mergeH_table_list`**: list × list of any two list classes → the existing list OBJECT `old` is
+    rewritten in place to `old ++ formatted new` and keeps ITS class tag `t`; `current` is not written;
+    the incoming list `v` and the formatted list `fv` are not written. -/
+theorem mergeH_table_list {fuel : Nat} {recur : Ref → Ref → Heap → Except Exc Heap} {root cur k v : Ref}
+    {h h1 h2 : Heap} {fk fv old : Ref} {fkv : Val} {tc : Nat} {kvs : List (Ref × Ref)}
+    (a : AtKey fuel root cur k h fk h1 fkv tc kvs old) {tv t t' : Nat} {vs xs ys : List Ref}
+    (hv : h1[v]? = some (.list tv vs)) (ho : h1[old]? = some (.list t xs))
+    (hf : fmtAt fuel h1 root v = .ok (fv, h2)) (hfc : h2[fv]? = some (.list t' ys)) :
+    mergeItemH fuel recur root cur k v h = .ok (h2.set old (.list t (xs ++ ys))) ∧
+    (h2.set old (.list t (xs ++ ys)))[old]? = some (.list t (xs ++ ys)) ∧
+    (h2.set old (.list t (xs ++ ys)))[cur]? = h2[cur]? ∧
+    (old ≠ v → (h2.set old (.list t (xs ++ ys)))[v]? = some (.list tv vs)) ∧
+    (old ≠ fv → (h2.set old (.list t (xs ++ ys)))[fv]? = some (.list t' ys)) :=
+  C10H.mergeH_table_list a hv ho hf hfc
+
+/-- **`mergeH_table_tuple`**: tuple × tuple of any two tuple classes → `current[k] + formatted`:
+    CPython's `tuple_concat` hands back an EXACT-tuple operand itself when the other operand is empty;
+    otherwise the result is a NEW PLAIN tuple (tag 0), whatever the operands' classes. -/
+theorem mergeH_table_tuple {fuel : Nat} {recur : Ref → Ref → Heap → Except Exc Heap} {root cur k v : Ref}
+    {h h1 h2 : Heap} {fk fv old : Ref} {fkv : Val} {tc : Nat} {kvs : List (Ref × Ref)}
+    (a : AtKey fuel root cur k h fk h1 fkv tc kvs old) {tv tx ty : Nat} {vs xs ys : List Ref}
+    (hv : h1[v]? = some (.tuple tv vs)) (ho : h1[old]? = some (.tuple tx xs))
+    (hf : fmtAt fuel h1 root v = .ok (fv, h2)) (hfc : h2[fv]? = some (.tuple ty ys)) :
+    mergeItemH fuel recur root cur k v h =
+      if ys.isEmpty && tx == 0 then writeKey h2 cur fkv fk old
+      else if xs.isEmpty && ty == 0 then writeKey h2 cur fkv fk fv
+      else writeKey (h2 ++ [.tuple 0 (xs ++ ys)]) cur fkv fk h2.length :=
+  C10H.mergeH_table_tuple a hv ho hf hfc
+
+/-- tuple × tuple when no shortcut applies: `current` (and only `current`) is rewritten, to refer to the
+    NEW object `h2.length`, a plain tuple with members old ++ formatted new; no operand is written. -/
+theorem mergeH_table_tuple_new {fuel : Nat} {recur : Ref → Ref → Heap → Except Exc Heap} {root cur k v : Ref}
+    {h h1 h2 : Heap} {fk fv old : Ref} {fkv : Val} {tc : Nat} {kvs : List (Ref × Ref)}
+    (a : AtKey fuel root cur k h fk h1 fkv tc kvs old) {tv tx ty : Nat} {vs xs ys : List Ref}
+    (hv : h1[v]? = some (.tuple tv vs)) (ho : h1[old]? = some (.tuple tx xs))
+    (hf : fmtAt fuel h1 root v = .ok (fv, h2)) (hfc : h2[fv]? = some (.tuple ty ys))
+    (h1n : (ys.isEmpty && tx == 0) = false) (h2n : (xs.isEmpty && ty == 0) = false) :
+    let h3 := h2 ++ [Cell.tuple 0 (xs ++ ys)]
+    let h' := h3.set cur (.dict tc (setPairH h3 kvs fkv fk h2.length))
+    mergeItemH fuel recur root cur k v h = .ok h' ∧
+    h'[h2.length]? = some (.tuple 0 (xs ++ ys)) ∧
+    h'[old]? = some (.tuple tx xs) ∧ h'[v]? = some (.tuple tv vs) ∧ h'[fv]? = some (.tuple ty ys) :=
+  C10H.mergeH_table_tuple_new a hv ho hf hfc h1n h2n
+
+/-- **`mergeH_table_set`**: set × set of any two `collections.abc.Set` classes (set, frozenset,
+    subclasses; in any combination) → `current` (and only `current`) is rewritten, to refer to the NEW
+    object `h2.length` whose class is the base type of the LEFT operand (`unionTag t`: frozenset | x is a
+    frozenset; set | x and MySet | x are plain sets), members = the existing ones first
+    (`unionH_prefix`), then the formatted new ones not yet present; no operand is written. -/
+theorem mergeH_table_set {fuel : Nat} {recur : Ref → Ref → Heap → Except Exc Heap} {root cur k v : Ref}
+    {h h1 h2 : Heap} {fk fv old : Ref} {fkv : Val} {tc : Nat} {kvs : List (Ref × Ref)}
+    (a : AtKey fuel root cur k h fk h1 fkv tc kvs old) {tv t t' : Nat} {vs xs ys : List Ref}
+    (hv : h1[v]? = some (.set tv vs)) (ho : h1[old]? = some (.set t xs))
+    (hf : fmtAt fuel h1 root v = .ok (fv, h2)) (hfc : h2[fv]? = some (.set t' ys)) :
+    let h3 := h2 ++ [Cell.set (unionTag t) (unionH h2 xs ys)]
+    let h' := h3.set cur (.dict tc (setPairH h3 kvs fkv fk h2.length))
+    mergeItemH fuel recur root cur k v h = .ok h' ∧
+    h'[h2.length]? = some (.set (unionTag t) (unionH h2 xs ys)) ∧
+    h'[old]? = some (.set t xs) ∧ h'[v]? = some (.set tv vs) ∧ h'[fv]? = some (.set t' ys) :=
+  C10H.mergeH_table_set a hv ho hf hfc
+
+/-- the class of a union: frozenset stays frozenset, every other left operand gives a plain set -/
+theorem mergeH_union_class (t : Nat) : (unionTag t = 1 ↔ t = 1) ∧ (unionTag t = 0 ↔ t ≠ 1) := by
+  unfold unionTag
+  by_cases h : t = 1 <;> simp [h]
+
+/-- the existing members of a union come first, in place and order -/
+theorem mergeH_union_members (h : Heap) (xs ys : List Ref) : xs <+: unionH h xs ys :=
+  unionH_prefix h xs ys
+
+/- Concrete runs through `mergeH` with mixed classes. Heap: 0 's', 1 the number 1, 2 the EXISTING container
+   holding 1, 3 the context {s: 2}; 4 the number 2, 5 the INCOMING container holding 2, 6 the incoming
+   mapping {s: 5}. Formatting 5 allocates 7 (same class as 5); the merged container is 8. -/
+def mixHeap (old new : List Ref → Cell) : Heap :=
+  [.str "s", .leaf (.int 1), old [1], .dict 0 [(0, 2)], .leaf (.int 2), new [4], .dict 0 [(0, 5)]]
+
+/-- what the context's `s` refers to afterwards, and that cell -/
+def mixResult (old new : List Ref → Cell) : Option (Ref × Cell) :=
+  match mergeH 8 3 6 (mixHeap old new) with
+  | .ok h => (match h[3]? with
+      | some (Cell.dict 0 [(0, r)]) => (match h[r]? with | some c => some (r, c) | none => none)
+      | _ => none)
+  | .error _ => none
+
+-- frozenset | MySet → a NEW frozenset; MySet | frozenset → a NEW plain set
+example : (match mixResult (.set 1) (.set 3) with | some (8, .set 1 [1, 4]) => true | _ => false) = true := by
+  decide +kernel
+example : (match mixResult (.set 3) (.set 1) with | some (8, .set 0 [1, 4]) => true | _ => false) = true := by
+  decide +kernel
+-- MyTuple + tuple → a NEW plain tuple; tuple + MyTuple likewise
+example : (match mixResult (.tuple 3) (.tuple 0) with | some (8, .tuple 0 [1, 4]) => true | _ => false) = true := by
+  decide +kernel
+example : (match mixResult (.tuple 0) (.tuple 3) with | some (8, .tuple 0 [1, 4]) => true | _ => false) = true := by
+  decide +kernel
+-- (1,) + MyTuple() → the existing exact tuple ITSELF (object 2); MyTuple((1,)) + () → a new plain tuple
+example : (match mixResult (.tuple 0) (fun _ => .tuple 3 []) with | some (2, .tuple 0 [1]) => true | _ => false) = true := by
+  decide +kernel
+example : (match mixResult (.tuple 3) (fun _ => .tuple 0 []) with | some (8, .tuple 0 [1]) => true | _ => false) = true := by
+  decide +kernel
+-- CommentedSeq.extend(MyList) → the SAME list object 2, still a CommentedSeq
+example : (match mixResult (.list 2) (.list 3) with | some (2, .list 2 [1, 4]) => true | _ => false) = true := by
+  decide +kernel
+
 /- A concrete sequence (the accumulator pattern). Heap: 0 'name', 1 'job1', 2 the context {name: job1};
    3 'results', 4 the EMPTY list [], 5 the first incoming mapping {results: []}; 6 ['r-{name}'] (7 its
    member), 8 the second incoming mapping {results: [..]}. After merge(5); merge(8) the context's
@@ -493,14 +872,7 @@ end heap
 
 /-! ## Concrete runs (the docstring example of `pypyr.steps.contextmerge` and of `default`) -/
 
-def docCtx : Pairs :=
-  [(.str "key1", .str "value1"), (.str "key2", .str "value2"),
-   (.str "key3", .dict [(.str "k31", .str "value31"), (.str "k32", .str "value32")]),
-   (.str "none", .none)]
-
-def docAdd : Val :=
-  .dict [(.str "key2", .str "aaa_{key1}_zzz"), (.str "key3", .dict [(.str "k33", .str "value33")]),
-         (.str "key4", .str "bbb_{key2}_yyy"), (.str "none", .str "x")]
+-- `docCtx` / `docAdd` are defined above (before the section on the trace)
 
 example : (match merge 8 docCtx docAdd with
     | .ok (r, _) => r == [(.str "key1", .str "value1"), (.str "key2", .str "aaa_value1_zzz"),
